@@ -40,7 +40,7 @@ def _rows(chk, m, info, p, stored, res, regs, age_iv, void_iv, rest, covered, ta
     for e, rel in rest:
         leaves = [fmt(k) for k in e.terms]
         if info['real'] is not None and any(fmt(info['real']) == l for l in leaves) and \
-                any(l.endswith('as_of') or l.endswith('void_after') for l in leaves):
+                any(l in (fmt(m.leaf_self('as_of')), fmt(m.leaf_self('void_after'))) for l in leaves):
             chk.ob('C06.D2', 'now:atom-on-realtime', False, p.where[2],
                    'status/age decision compares the REALTIME reading with a record instant: %r %s 0' % (e, rel))
     for r in regs:
@@ -96,7 +96,7 @@ def run(ctx, chk):
             chk.ob('C06.D1', 'covered:%s' % key, key in covered, m.body.where(0),
                    'no Ok path of now() covers %s' % key if key not in covered else 'covered by %s' % sorted(covered[key]),
                    nontrivial=False)
-    chk.floor('C06.D1', 'Ok paths of now()', n_ok_paths, 3)
+    chk.floor('C06.D1', 'Ok paths of now()', n_ok_paths, 1)
     chk.tables['extracted'] = {k: sorted(v) for k, v in sorted(table.items())}
     chk.tables['oracle'] = {'%s/R%d' % (s, i + 1): ORACLE[s][i] for s in ORACLE for i in range(3)}
 
